@@ -77,6 +77,10 @@ func runC02(r *harness.Run) {
 			order = append(order, pre+n)
 		}
 	}
+	// callable objects whose metatable is protected (__metatable set) are called like any other
+	gens["L/F-call"] = mapGen(gens["F-call"], "L/", lockMeta)
+	gens["L/F-tail"] = mapGen(gens["F-tail"], "L/", lockMeta)
+	order = append(order, "L/F-call", "L/F-tail")
 	pr.runGens(gens, order)
 	c02LongTail(r)
 	runPinned(r, "C02")
